@@ -402,7 +402,7 @@ theorem C18_py_invalid_cpus_partial (c : Cfg) (hg : c.Good) (hrep : c.einvalValu
     `(OSError, ValueError)` only -/
 def cfgOverflowUncaught : Cfg := { cfg with overflowValueError := false }
 
-/-- the full statement is false of the source as found (known finding `C18-huge-cpu-overflowerror`):
+/-- the full statement is false of the source as found before /repo 90c3e72 (defect `C18-huge-cpu-overflowerror`, fixed):
     `cpu_affinity([2**63])` names only a nonexistent CPU and raises OverflowError, not ValueError -/
 theorem C18_invalid_cpus_counterexample : ¬ C18_invalid_cpus_Full cfgOverflowUncaught := by
   intro h
@@ -413,9 +413,8 @@ theorem C18_invalid_cpus_counterexample : ¬ C18_invalid_cpus_Full cfgOverflowUn
   rw [this] at h2
   cases h2
 
-/- AFTER `fixes/C18-affinity-overflow-valueerror.diff` HAS LANDED (integrator): uncomment — the obligation
-   on the translator's fact and the full statement / the refinement without any excluded region for
-   the code as it is; then `./check C18 --rebaseline`, move the finding to a `fixed:` line.
+/- `fixes/C18-affinity-overflow-valueerror.diff` has landed as /repo 90c3e72: the obligation on the
+   translator's fact and the full statement / the refinement without any excluded region for the code as it is -/
 
 theorem cfg_overflow_is_valueError : cfg.overflowValueError = true := by decide
 
@@ -427,7 +426,6 @@ theorem C18_refines_code_py_full (k : Kernel) (pid : Nat) (st : PState) (x : Ctx
     (hs : Spec.expectPy k pid st r = .promised o k') : stepPy cfg k pid x r = (o, k') :=
   C18_refines_py cfg cfg_good cfg_einval_is_valueError k pid st x r o k' hpid hst hwf
     (Or.inl cfg_overflow_is_valueError) hs
--/
 
 /-- … whatever happens there, nothing changes and the exception is one of the two -/
 theorem C18_huge_cpu_raises (c : Cfg) (k : Kernel) (pid : Nat) (st : PState) (x : Ctx) (f : CpuForm)
